@@ -566,4 +566,78 @@ theorem cumSum_eq (reverse : Bool) (l : List Int) :
       have : l.length - (l.length - i) = i := by omega
       rw [this]; omega
 
+
+/-! ## integer division: floor from truncation -/
+theorem int_sign_eq (x : Int) : Int.sign x = Jax.sign x := by
+  unfold Jax.sign
+  rcases Int.lt_trichotomy x 0 with h | h | h
+  · rw [Int.sign_eq_neg_one_of_neg h]; split_ifs <;> omega
+  · subst h; rfl
+  · rw [Int.sign_eq_one_of_pos h]; split_ifs <;> omega
+
+theorem tmod_eq_zero_iff_dvd (a b : Int) : a.tmod b = 0 ↔ b ∣ a := by
+  constructor
+  · intro h; exact Int.dvd_of_tmod_eq_zero h
+  · intro h; exact Int.tmod_eq_zero_of_dvd h
+
+theorem tmod_neg_iff (a b : Int) : a.tmod b < 0 ↔ (a < 0 ∧ ¬ b ∣ a) := by
+  have hs := Int.sign_tmod a b
+  constructor
+  · intro h
+    have : Int.sign (a.tmod b) = -1 := Int.sign_eq_neg_one_of_neg h
+    rw [this] at hs
+    split at hs
+    · omega
+    · next hd => exact ⟨by
+        rcases Int.lt_trichotomy a 0 with h' | h' | h'
+        · exact h'
+        · subst h'; simp at hs
+        · rw [Int.sign_eq_one_of_pos h'] at hs; omega, hd⟩
+  · intro ⟨ha, hd⟩
+    rw [if_neg hd, Int.sign_eq_neg_one_of_neg ha] at hs
+    exact Int.sign_eq_neg_one_iff_neg.mp hs
+
+/-- floor division from truncated division: subtract one exactly when the remainder is non-zero
+    and its sign differs from the divisor's. -/
+theorem fdiv_eq_tdiv_adjust (a b : Int) (hb : b ≠ 0) :
+    a.fdiv b = if a.tmod b ≠ 0 ∧ ((a.tmod b < 0) ≠ (b < 0)) then a.tdiv b - 1 else a.tdiv b := by
+  rw [Int.fdiv_eq_tdiv]
+  have h0 := tmod_eq_zero_iff_dvd a b
+  have hn := tmod_neg_iff a b
+  by_cases hd : b ∣ a
+  · have : a.tmod b = 0 := h0.mpr hd
+    simp [hd, this]
+  · have hne : a.tmod b ≠ 0 := fun h => hd (h0.mp h)
+    simp only [hd, if_false, hne, ne_eq, not_false_eq_true, true_and]
+    by_cases ha : 0 ≤ a <;> by_cases hbb : 0 ≤ b
+    · have h1 : ¬ a.tmod b < 0 := fun h => by have := (hn.mp h).1; omega
+      have h2 : ¬ b < 0 := by omega
+      simp [ha, hbb, h1, h2]
+    · have h1 : ¬ a.tmod b < 0 := fun h => by have := (hn.mp h).1; omega
+      have h2 : b < 0 := by omega
+      simp [ha, hbb, h1, h2]
+    · have h1 : a.tmod b < 0 := hn.mpr ⟨by omega, hd⟩
+      have h2 : ¬ b < 0 := by omega
+      have h3 : 0 < b := by omega
+      simp [ha, hbb, h1, h2, h3]
+    · have h1 : a.tmod b < 0 := hn.mpr ⟨by omega, hd⟩
+      have h2 : b < 0 := by omega
+      have h3 := Int.sign_eq_neg_one_of_neg h2
+      simp [ha, hbb, h1, h2, h3]
+
+theorem fmod_eq_tmod_adjust (a b : Int) (hb : b ≠ 0) :
+    a.fmod b = if a.tmod b ≠ 0 ∧ ((a.tmod b < 0) ≠ (b < 0)) then a.tmod b + b else a.tmod b := by
+  rw [Int.fmod_def, fdiv_eq_tdiv_adjust a b hb, Int.tmod_def]
+  split_ifs
+  · rw [Int.mul_sub, Int.mul_one]; omega
+  · rfl
+
+/-! ## automation shared by the regenerated-recipe obligations (`GenProps/C01*.lean`) -/
+
+/-- Unfold the evaluation of a concrete recipe on symbolic inputs into plain arithmetic. -/
+macro "recipe_simp" : tactic =>
+  `(tactic| simp only [Recipe.eval, evalNodes, evalNode, getV, Op.eval, Op.core, finish, nrm,
+      List.map, List.getD_cons_zero, List.getD_cons_succ, List.cons_append, List.nil_append,
+      List.getD_eq_getElem?_getD, List.getElem?_cons_zero, List.getElem?_cons_succ, Option.getD_some])
+
 end J2O.C01
